@@ -26,7 +26,7 @@ RoundTrip ==
 
 \* C07: whatever follows, exactly the encoding is consumed
 SelfDelimiting ==
-  \A v \in Vals(T), s \in Suffixes :
+  \A v \in Vals(T), s \in Suffixes \cup FollowerSuffixes :
     LET e == Encode(T, v) d == Decode(T, e.b \o s) IN d.ok /\ d.v = v /\ d.p = Len(e.b) + 1
 
 \* C08: every strict prefix is rejected
@@ -56,6 +56,6 @@ Case(v) == [v |-> v, b |-> Encode(T, v).b, alt |-> EncAlt(T, v, EmptySt).b,
             perms |-> IF T.k \in {"hset", "hmap"} /\ ~HasHash(ElemT(T)) THEN {Encode(T, w).b : w \in OrderVariants(T, v)} ELSE {}]
 EmitCases ==
   PrintT(<<"REPLAY", ToJson([ty |-> T, hash |-> HasHash(T), cases |-> [i \in 1..Len(VS(T)) |-> Case(VS(T)[i])]])>>)
-EmitMeta == PrintT(<<"META", ToJson([suffixes |-> Suffixes])>>)
+EmitMeta == PrintT(<<"META", ToJson([suffixes |-> Suffixes \cup FollowerSuffixes])>>)
 ASSUME EmitMeta
 =============================================================================
